@@ -263,10 +263,43 @@ def impl_cli(case):
     if case["only_bp"]:
         args.append("--only_breakpoint")
     sg._simulate = counting
+    # the call boundary: what the command line hands validate_params, simulate_gt and output_vcf
+    import inspect
+
+    seen = {}
+    origs = {n: getattr(sg, n) for n in ("validate_params", "simulate_gt", "output_vcf")}
+
+    def wrap(name):
+        def w(*a, **k):
+            b = inspect.signature(origs[name]).bind(*a, **k)
+            b.apply_defaults()
+            rec = dict(b.arguments)
+            ret = origs[name](*a, **k)
+            if name == "validate_params":
+                rec["returned"] = ret
+            seen[name] = rec
+            return ret
+
+        return w
+
+    for n_ in origs:
+        setattr(sg, n_, wrap(n_))
     try:
         r = CliRunner().invoke(main, args, catch_exceptions=True)
     finally:
         sg._simulate = orig
+        for n_, f_ in origs.items():
+            setattr(sg, n_, f_)
+    glue = []
+    want_region = case["region"]
+    want_chroms = [case["region"]["chr"]] if case["region"] else list(case["chroms"])
+    for fn, pname, want in (("validate_params", "no_replacement", case["no_repl"]), ("validate_params", "only_bp", case["only_bp"]), ("validate_params", "popsize", case["popsize"]), ("validate_params", "region", want_region), ("validate_params", "chroms", want_chroms), ("simulate_gt", "region", want_region), ("simulate_gt", "chroms", want_chroms), ("simulate_gt", "seed", case["seed"]), ("output_vcf", "no_replacement", case["no_repl"]), ("output_vcf", "pop_field", True), ("output_vcf", "sample_field", True), ("output_vcf", "region", want_region), ("output_vcf", "chroms", want_chroms)):
+        if fn in seen and seen[fn].get(pname) != want:
+            glue.append(f"{fn}({pname}={seen[fn].get(pname)!r}) although the options mean {want!r}")
+    if "validate_params" in seen and "simulate_gt" in seen and seen["simulate_gt"].get("popsize") != seen["validate_params"]["returned"]:
+        glue.append(f"simulate_gt(popsize={seen['simulate_gt'].get('popsize')!r}) although validation returned {seen['validate_params']['returned']!r}")
+    if r.exit_code == 0 and not case["only_bp"] and "output_vcf" not in seen:
+        glue.append("output_vcf was not called although genotypes were requested")
     if r.exit_code == 0:
         heads = [l for l in open(d / "out.bp") if l.startswith("Sample_")] if (d / "out.bp").exists() else []
         from haptools.data import Breakpoints
@@ -290,6 +323,7 @@ def impl_cli(case):
         late = type(e) is Exception and bool(re.search(r"No available sample", str(e)))
         out = {"accepted": False, "reason": reason, "exc": type(e).__name__, "msg": str(e)[:120], "late_no_sample": late}
     out["generations_simulated_before_outcome"] = len(sims) if not out["accepted"] else 0
+    out["glue"] = "; ".join(glue) or None
     return out
 
 
@@ -373,6 +407,8 @@ def equal(a, b):
 def oracle(case, obs):
     if "error" in obs:
         return f"harness could not run the case: {obs}"
+    if obs.get("glue"):
+        return f"the command line does not hand the simulation the parameters it was given: {obs['glue']}"
     v = case["violation"]
     if v is None:
         if not obs["accepted"]:
@@ -431,7 +467,7 @@ CHECK = Check(
             setup=setup,
             teardown=teardown,
             nontrivial=lambda c, o: C.jdump(c),
-            rule="the same generator through `haptools simgenotype` (click CliRunner: --model/--mapdir/--chroms or --region/--popsize/--seed/--ref_vcf/--sample_info/--no_replacement/--only_breakpoint): exit status, the refusal's message mapped to the reason enum, the population size _simulate is first called with, the haplotype count and tiling of the written .bp file – compared with the same Lean pipeline, so that the option glue of __main__.py is covered as well",
+            rule="the same generator through `haptools simgenotype` (click CliRunner: --model/--mapdir/--chroms or --region/--popsize/--seed/--ref_vcf/--sample_info/--no_replacement/--only_breakpoint): exit status, the refusal's message mapped to the reason enum, the population size _simulate is first called with, the haplotype count and tiling of the written .bp file – compared with the same Lean pipeline; validate_params, simulate_gt and output_vcf are wrapped while the command runs and the arguments they receive (no_replacement, only_bp, popsize, region, chroms, seed, POP/SAMPLE flags, the validated population size) are compared with what the options mean, so that the option glue of __main__.py is covered as well",
         ),
     ],
     trusted=["int()/float() token conversion as mirrored by the harness tokeniser", "glob/regex map-file discovery (the harness counts matching files with the same pattern)", "np.float32 sum of fractions agrees with the exact decimal sum to within the 1e-6 tolerance when the violation is >= 1e-3 (clear margin)"],
